@@ -334,3 +334,17 @@ class VSet(V):
 
   def __init__(self, has, size):
     self.has, self.size = has, size
+
+
+class VLazy(V):
+  """A generator expression over a concrete collection: its elements are computed (with their side effects) when it is
+  first consumed, not when it is created."""
+  __slots__ = ('thunk', 'items')
+
+  def __init__(self, thunk):
+    self.thunk, self.items = thunk, None
+
+  def force(self):
+    if self.items is None:
+      self.items = self.thunk()
+    return self.items
